@@ -85,7 +85,16 @@ pub fn parse_smap(t: &mut Toks) -> SourceMap {
   let file = t.opt_text();
   let root = t.opt_text();
   let dbg = t.opt_text();
-  let mut m = SourceMap::new(mappings, sources, contents, names);
+  // every other map gets its tables through the setters instead of the constructor
+  let mut m = if mappings.len() % 2 == 0 {
+    SourceMap::new(mappings, sources, contents, names)
+  } else {
+    let mut m = SourceMap::new(mappings, vec!["placeholder".to_string()], vec!["x".to_string()], vec!["y".to_string()]);
+    m.set_sources(sources);
+    m.set_sources_content(contents);
+    m.set_names(names);
+    m
+  };
   m.set_file(file);
   m.set_source_root(root);
   m.set_debug_id(dbg);
